@@ -52,8 +52,86 @@ def always_skips(fn):
     return bool(b) and isinstance(b[-1], ast.Raise) and astq.u(b[-1].exc).split('(')[0] in ('SkipDeparture', 'SkipNode')
 
 
+def r8(ctx, rep):
+    """Both text renderers print the mark of a node's `flag` value; "one closure mark per closed branch and none on open ones" then
+    needs the closure flag to sit only on the node `Branch.close` appends.  Who-may-build: the closure property map
+    (`Node.PropMap.Closure`, read from source) or a literal mapping carrying its flag value is used to build a node only in
+    `Branch.close`; elsewhere only its entries are read (`PropMap.Closure[key]`)."""
+    m = ctx.m
+    R8 = rep.rule('C19.R8', 'closure marks only on closed branches: a node carrying the closure flag (Node.PropMap.Closure, or a literal mapping with its flag '
+                            'value) is built only in Branch.close; every other use reads an entry of the map')
+    PROOF, COMMON = 'pytableaux.proof', 'pytableaux.proof.common'
+    pm = next((st for st in ast.walk(m.trees[PROOF]) if isinstance(st, ast.ClassDef) and st.name == 'PropMap'), None)
+    if pm is None:
+        raise AnalysisError('proof/__init__.py: class PropMap not found')
+    maps = {}
+    for st in pm.body:
+        if isinstance(st, ast.Assign) and len(st.targets) == 1 and isinstance(st.targets[0], ast.Name):
+            v = st.value
+            d = None
+            if isinstance(v, ast.Call) and isinstance(v.func, ast.Name) and v.func.id == 'dict' and not v.args:
+                d = {k.arg: k.value for k in v.keywords}
+            elif isinstance(v, ast.Dict):
+                d = {(k.value if isinstance(k, ast.Constant) else getattr(k, 'attr', None)): x for k, x in zip(v.keys, v.values)}
+            if d is not None:
+                maps[st.targets[0].id] = {k: (x.value if isinstance(x, ast.Constant) else astq.u(x)) for k, x in d.items()}
+    if 'Closure' not in maps or 'flag' not in maps['Closure']:
+        raise AnalysisError(f'proof/__init__.py PropMap: no Closure map with a flag entry (found {sorted(maps)})')
+    cflag = maps['Closure']['flag']
+    flags = {v.get('flag') for v in maps.values() if 'flag' in v}
+    rep.consult(m.loc(PROOF, pm) + ' NodeMeta.PropMap')
+    n = 0
+    for mod in sorted(m.trees):
+        if not (mod.startswith('pytableaux.proof') or mod.startswith('pytableaux.logics') or mod.startswith('pytableaux.models')) or mod.startswith('pytableaux.proof.writers'):
+            continue
+        for qn, fn in astq.all_functions(m.trees[mod]):
+            pmap = astq.parent_map(fn)
+            for x in astq.walk_no_nested(fn):
+                site = None
+                if isinstance(x, ast.Attribute) and x.attr == 'Closure' and isinstance(x.value, ast.Attribute) and x.value.attr == 'PropMap':
+                    par = pmap.get(x)
+                    if isinstance(par, ast.Subscript) and par.value is x and isinstance(par.ctx, ast.Load):
+                        continue        # reads one entry of the map
+                    site = f'`{astq.u(par if par is not None else x)[:70]}` uses the closure property map as a whole'
+                elif isinstance(x, ast.Dict):
+                    for k, v in zip(x.keys, x.values):
+                        kn = k.value if isinstance(k, ast.Constant) else getattr(k, 'attr', None)
+                        if kn == 'flag' and isinstance(v, ast.Constant) and v.value == cflag:
+                            site = f'`{astq.u(x)[:70]}` is a mapping with the closure flag'
+                elif isinstance(x, ast.keyword) and x.arg == 'flag' and isinstance(x.value, ast.Constant) and x.value.value == cflag:
+                    site = f'`flag={cflag!r}` builds a mapping with the closure flag'
+                if site is None:
+                    continue
+                n += 1
+                ok = (mod, qn) == (COMMON, 'Branch.close')
+                if not ok and mod == COMMON and qn.startswith('Branch._') and not qn.startswith('Branch.__'):
+                    # a private helper of Branch that only Branch.close calls
+                    short = qn.rsplit('.', 1)[-1]
+                    callers = {q for q, f in astq.all_functions(m.trees[mod]) for c in astq.calls(f, nested=False)
+                               if isinstance(c.func, ast.Attribute) and c.func.attr == short}
+                    ok = callers == {'Branch.close'}
+                rep.instance(R8, ok=ok, nontrivial=(mod, qn))
+                if not ok:
+                    rep.finding(R8, f'C19.R8/{mod}:{qn}', m.loc(mod, x), qn, f'{site} outside Branch.close: the node is rendered with the closure mark although its branch is open')
+    # the plain-text template compares node.flag with literals: each must be a flag value some property map defines, and the closure mark hangs on the closure value
+    import re as _re
+    from pathlib import Path as _P
+    tpl = _P(rep.repo) / 'pytableaux/proof/writers/templates/text/nodes.jinja2'
+    if tpl.exists():
+        txt = tpl.read_text()
+        rep.consult('pytableaux/proof/writers/templates/text/nodes.jinja2')
+        for mt in _re.finditer(r"node\.flag\s*==\s*'([^']*)'", txt):
+            ok = mt.group(1) in flags
+            rep.instance(R8, ok=ok, nontrivial=('template', mt.group(1)))
+            if not ok:
+                rep.finding(R8, f'C19.R8/template/{mt.group(1)}', 'pytableaux/proof/writers/templates/text/nodes.jinja2', 'nodes.jinja2',
+                            f'compares node.flag with {mt.group(1)!r}, which no property map of proof.NodeMeta.PropMap defines ({sorted(flags)}): the mark is never printed')
+    rep.floor('C19.R8', 'closure-map build sites', n, 1)
+
+
 def run(ctx, rep):
     m = ctx.m
+    r8(ctx, rep)
     R1 = rep.rule('C19.R1', 'visitor exhaustiveness of the strict translators over every element class the builder can emit')
     emitted, classes = emitted_types(m)
     rep.floor('C19.R1', 'emitted element classes', len(emitted), 15)
